@@ -5,6 +5,7 @@ CONSTANTS
   Periodic = TRUE
   DeleteByName = FALSE
   ClaimIgnoresCancel = FALSE
+  PrefixCancellers = {}
   DropOnClaim = FALSE
   MaxRuns = 3
   ScenLen = 22
